@@ -126,6 +126,21 @@ def loadRange (bytes : List UInt8) : List (Nat × Nat) × List UInt8 :=
   let bounds := prefixSums 0 rr.1
   (bounds.zip (bounds.drop 1), rr.2)
 
+/-- mirrors: value/range.rs::RangeValueWriter::write — the stored boundaries: the first start, then
+every end (a range must start where the previous one ended: `assert_eq!`) -/
+def rangeBounds : List (Nat × Nat) → List Nat
+  | [] => []
+  | r :: rest => r.1 :: r.2 :: rest.map (·.2)
+
+/-- mirrors: value/range.rs::serialize_block (count of boundaries, boundary deltas) -/
+def serRange (rs : List (Nat × Nat)) : List UInt8 := serU64Mono (rangeBounds rs)
+
+/-- consecutive ranges partition an interval -/
+def Contig : List (Nat × Nat) → Prop
+  | [] => True
+  | [_] => True
+  | a :: b :: rest => a.2 = b.1 ∧ Contig (b :: rest)
+
 /-! ## file framing (`Writer::finish`, `BlockReader::read_block`) -/
 
 def u32le (bs : List UInt8) : Nat :=
